@@ -1703,6 +1703,8 @@ def compare(c, io, drv):
         if all(not _problems(dict(c, subs=[sb]), o, {"subs": [d]}) for sb, o, d in zip(c["subs"], alone, drv["subs"])):
             io["_alone_ok"] = True
         return out
+    if isinstance(io, dict) and io.get("err") == "OTHER:Timeout":
+        return out          # a run that does not end in time is reported as it is (no second, longer wait in a fresh process)
     io2 = _ZYG.run([c])[0]
     out2 = _problems(c, io2, drv)
     if out2:
